@@ -143,14 +143,20 @@ func driveC01(seed int64, tier, out, replay string) {
 	}
 	// listed findings: replayed on the hand-written federation
 	if hand, err := NewRig(handWorld(), RigConfig{}); err == nil {
+		handP, _ := NewRig(handWorldPayload(), RigConfig{})
 		for _, k := range loadKnown("C01") {
 			var kc struct {
-				Op gen.GenOp `json:"operation"`
+				Op    gen.GenOp `json:"operation"`
+				World string    `json:"world"` // "" = the hand-written federation, "payload" = with Mutation.doIt: Payload { query: Query }
 			}
 			if jsonUnmarshal(k.Input, &kc) != nil {
 				continue
 			}
-			what, _ := compareFed(hand, kc.Op)
+			rig := hand
+			if kc.World == "payload" && handP != nil {
+				rig = handP
+			}
+			what, _ := compareFed(rig, kc.Op)
 			if what != "" && !strings.HasPrefix(what, "skip:") {
 				obs.KnownHit = append(obs.KnownHit, hx.Failure{Key: k.Key, What: k.Key + ": " + k.What})
 			} else {
